@@ -100,6 +100,13 @@ def instance(draw, s: dict, comps: dict, depth: int = 0, bias: str = "random") -
     if k == "array":
         if depth >= MAX_DEPTH:
             return []
+        if s.get("as_prefix"):
+            # positional: element i comes from the i-th listed schema, elements past the prefix from the trailing 'items' schema
+            members = s["items"]["members"]
+            n_pre = s["as_prefix"]
+            n = draw(st.integers(0, n_pre + (2 if len(members) > n_pre else 0)))
+            return [draw(instance(members[min(i, n_pre)] if i < n_pre or len(members) > n_pre else members[-1], comps, depth + 1, bias))
+                    for i in range(n)]
         n = draw(st.integers(0, 3))
         return [draw(instance(s["items"], comps, depth + 1, bias)) for _ in range(n)]
     if k == "union":
@@ -256,6 +263,11 @@ def _js(s: dict) -> dict:
         out = {"enum": list(s["values"]) + ([None] if s.get("null") else [])}
     elif k == "const":
         out = {"const": s["value"]}
+    elif k == "array" and s.get("as_prefix"):
+        members = s["items"]["members"]
+        n_pre = s["as_prefix"]
+        out = {"type": "array", "prefixItems": [_js(m) for m in members[:n_pre]]}
+        out["items"] = _js(members[n_pre]) if len(members) > n_pre else False
     elif k == "array":
         out = {"type": "array", "items": _js(s["items"])}
     elif k == "union":
